@@ -28,7 +28,22 @@ TIERS = {
 
 
 def engine_for(prop):
-    if prop in ("C09", "C10", "C13", "C18"):
+    if prop == "C18":
+        # every fourth seed is a multi-stage run (templates, clones, parent coupling) with save/load restarts
+        from . import c12, hist, props
+
+        def run_seed18(seed):
+            if seed % 4 == 3:
+                return c12.run_seed(seed, restarts=True)
+            return hist.run_seed(prop, seed, props.base_cfg(prop))
+
+        def run_steps18(steps, probe_seed):
+            if any(s["op"] in ("stage", "template", "clone") for s in steps):
+                return c12.run_steps(steps, probe_seed)
+            return hist.run_steps(prop, steps, probe_seed, props.base_cfg(prop))
+
+        return run_seed18, run_steps18
+    if prop in ("C09", "C10", "C13"):
         from . import hist, props
 
         return (lambda seed: hist.run_seed(prop, seed, props.base_cfg(prop)),
